@@ -568,7 +568,8 @@ def _asdict_inner(obj, dict_factory, hooks, meta, cls_to_dump_func,
 
         else:
             _yp('hook_scan.begin')
-            for t in hooks:
+            # iterate over a snapshot: another thread may cache a new type in `hooks`
+            for t in tuple(hooks):
                 _yp('hook_scan.iter')
                 if isinstance(obj, t):
                     # cache the hook for the subtype, so that next time this
